@@ -117,9 +117,77 @@ def run(w: World, rep: Report):
         'eval typing is applied to every builder template that evals (C04.R2, template rules). Root / '
         'commitment formulas, completeness for every tree shape and pack/unpack round trips are value-level '
         'and not decided.')
+    _pack_unpack(w, rep)
     try:
         from . import rules_templates as rt2
         if hasattr(rt2, 'c04_builders'):
             rt2.c04_builders(w, rep)
     except ImportError:
         pass
+
+
+def _pack_unpack(w: World, rep: Report):
+    """Sibling symmetry of the tree (de)serialiser: each child is rebuilt from its *own* tag and
+    data fields, and pack writes (tag, length, data) of the left child then of the right child."""
+    rep.rule('C04.R3', 'ScriptNode.pack / unpack: each child is written / rebuilt from its own (tag, length, data) '
+             'fields, left then right', floor=2)
+    un = w.repo.func('tools', 'ScriptNode.unpack')
+    fields = set()
+    for n in ast.walk(un.node):
+        if isinstance(n, ast.Assign) and isinstance(n.value, ast.Call) and dotted(n.value.func) == 'struct.unpack' \
+                and isinstance(n.targets[0], ast.Tuple):
+            for e in n.targets[0].elts:
+                if isinstance(e, ast.Name):
+                    fields.add(e.id)
+    # plain copies of a field count as that field (right_data = data)
+    alias = {}
+    for n in ast.walk(un.node):
+        if isinstance(n, ast.Assign) and isinstance(n.targets[0], ast.Name) and isinstance(n.value, ast.Name) \
+                and n.value.id in fields:
+            alias[n.targets[0].id] = n.value.id
+            fields.add(n.targets[0].id)
+    rets = [n for n in ast.walk(un.node) if isinstance(n, ast.Return) and isinstance(n.value, ast.Call)
+            and len(n.value.args) == 2]
+    ok, why = bool(rets), 'unpack does not return cls(left, right)'
+    for r in rets:
+        used = []
+        for a in r.value.args:
+            e = a
+            if isinstance(a, ast.Name):
+                defs = [n.value for n in ast.walk(un.node) if isinstance(n, ast.Assign)
+                        and isinstance(n.targets[0], ast.Name) and n.targets[0].id == a.id]
+                if len(defs) != 1:
+                    ok, why = False, f'child `{a.id}` is assigned {len(defs)} times'
+                    continue
+                e = defs[0]
+            used.append({x.id for x in ast.walk(e) if isinstance(x, ast.Name) and x.id in fields})
+        if len(used) == 2:
+            if len(used[0]) < 2 or len(used[1]) < 2:
+                ok, why = False, f'a child is rebuilt from {sorted(used[0])} / {sorted(used[1])}: a tag and a data field are needed for each'
+            elif used[0] & used[1]:
+                ok, why = False, (f'both children are rebuilt using field(s) {sorted(used[0] & used[1])}: the right child '
+                                  f'must be classified and decoded from its own tag and data')
+    rep.check('C04.R3', 'tools.ScriptNode.unpack|children-use-own-fields', ok, line=un.node.lineno,
+              file='tapescript/tools.py', why='' if ok else why)
+    pk = w.repo.func('tools', 'ScriptNode.pack')
+    ok, why = False, 'struct.pack call not recognised'
+    for n in ast.walk(pk.node):
+        if isinstance(n, ast.Call) and dotted(n.func) == 'struct.pack' and len(n.args) == 7:
+            groups = [n.args[1:4], n.args[4:7]]
+            sides = []
+            for g in groups:
+                txt = ' '.join(ast.unparse(x) for x in g)
+                # locals `left` / `right` are the packed children: resolve through their definitions
+                names = {x.id for y in g for x in ast.walk(y) if isinstance(x, ast.Name)}
+                attrs = {x.attr for y in g for x in ast.walk(y) if isinstance(x, ast.Attribute)
+                         and isinstance(x.value, ast.Name) and x.value.id == 'self'}
+                for nm in names:
+                    for d in ast.walk(pk.node):
+                        if isinstance(d, ast.Assign) and isinstance(d.targets[0], ast.Name) and d.targets[0].id == nm:
+                            attrs |= {x.attr for x in ast.walk(d.value) if isinstance(x, ast.Attribute)
+                                      and isinstance(x.value, ast.Name) and x.value.id == 'self'}
+                sides.append(attrs & {'left', 'right'})
+            ok = sides == [{'left'}, {'right'}]
+            why = '' if ok else f'pack writes field groups derived from {[sorted(x) for x in sides]}; expected left then right'
+    rep.check('C04.R3', 'tools.ScriptNode.pack|left-then-right', ok, line=pk.node.lineno, file='tapescript/tools.py',
+              why=why)
